@@ -1,9 +1,9 @@
 (* C02 — dimension slicing selects exactly the requested hyperslab.
    Property statements only; every proof is `exact <lemma>` or a vm_compute witness.
    The model describes sliceDimensions AS REPAIRED by fixes/C02-slice-orthogonal-per-axis.patch,
-   fixes/C02-zip-keep-masks.patch and fixes/C02-zip-with-ints.patch (the former _refuted theorems
-   — int+list separated by a slice axis, zipped lists with ints, lost masks — are gone; their
-   witnesses live on in corpus/C02/).
+   fixes/C02-zip-keep-masks.patch, fixes/C02-zip-with-ints.patch and fixes/C02-zip-empty-lists.patch
+   (the former _refuted theorems — int+list separated by a slice axis, zipped lists with ints, lost
+   masks, empty zipped lists — are gone; their witnesses live on in corpus/C02/).
    Model: Model/Slice.v over Base/ArrFlat.v (flat C-order arrays, abstract cells: a mask is part of
    the cell, so "masks carried over" is the statement at A := value * masked). *)
 From PNC Require Import Base.Util Base.ArrFlat Model.Slice Proofs.ArrFlatProofs Proofs.SliceProofs.
@@ -78,7 +78,8 @@ Proof. intros A. exact slice_var. Qed.
 Print Assumptions C02_slice_var.
 
 (* FULL STRENGTH: >= 1 list on the variable (the code takes this path with >= 2), all lists of
-   length P, the first list at ANY axis, int selectors anywhere, any cells (masked or not): the
+   length P (P = 0 included), the first list at ANY axis, int selectors anywhere, any cells (masked
+   or not): the
    point loop equals the pointwise selection along one new axis placed where the first list axis
    was, orthogonal elsewhere *)
 Theorem C02_zip_var : forall (A : Type) P sh rs (d : list A),
@@ -94,15 +95,16 @@ Theorem C02_zip_spec_size : forall (A : Type) P sh rs (d : list A),
 Proof. intros A. exact zslice_length. Qed.
 Print Assumptions C02_zip_spec_size.
 
-(* what is left: two or more EMPTY lists raise (np.asarray([]) is a float array) although the
-   empty selection is well defined — whole-file model, kept as a known finding *)
-Theorem C02_zip_empty_lists_refuted : exists (f : file nat) kws,
-  impl_slice_file f kws = None /\ spec_slice_file f kws <> None.
-Proof.
-  exists (File [2; 3] [Var [0; 1] (seq 0 6)]), [(0, SList []); (1, SList [])].
-  vm_compute. split; [reflexivity|discriminate].
-Qed.
-Print Assumptions C02_zip_empty_lists_refuted.
+(* FULL STRENGTH, WHOLE FILE: for every well-formed file (any number of dimensions and variables,
+   any dimension subsets/orders per variable, any cells) and EVERY keyword list in any order —
+   malformed ones included, where both sides are the error outcome — the model of the repaired
+   sliceDimensions equals the specification: new dimension lengths, per-variable orthogonal
+   selection, zipped selection with the POINTS dimension for variables holding >= 2 of the lists,
+   variables without selected dimensions unchanged *)
+Theorem C02_slice_file : forall (A : Type) (f : file A) kws,
+  wf_file f = true -> impl_slice_file f kws = spec_slice_file f kws.
+Proof. intros A. exact slice_file. Qed.
+Print Assumptions C02_slice_file.
 
 (* ---- non-vacuity ---------------------------------------------------------------------------- *)
 
@@ -127,6 +129,12 @@ Proof. vm_compute. split; reflexivity. Qed.
 
 (* zipped lists with int selectors before them and a sliced axis after (former transposition
    / AxisError witnesses) *)
+(* empty zipped lists (former IndexError witness) through the whole-file model *)
+Example C02_file_empty_lists :
+  impl_slice_file (File [2; 3] [Var [0; 1] (seq 0 6)]) [(0, SList []); (1, SList [])]
+  = Some (File [0; 0; 0] [Var [2] []]).
+Proof. vm_compute. reflexivity. Qed.
+
 Example C02_zip_inhabited :
   let rs := [RInt 0; RInt 0; RList [0; 1]; RList [0; 1]; full_sel 2] in
   rs_ok [2; 2; 2; 2; 2] rs = true /\ lists_len 2 rs = true /\ has_list rs = true /\
